@@ -131,6 +131,13 @@ Range2 == {CaseOf("C03/range2/" \o sh \o "/" \o k1 \o ToString(l1) \o rv1 \o "-"
                     [] sh = "infunc" -> <<Func("both", <<>>, <<>>, <<RangeOf(k1, l1, rv1, "i", "v", <<RangeOf(k2, l2, rv2, "j", "w", <<>>)>>)>>), ExprS(CallE("both", <<>>)), ExprS(CallE("both", <<>>))>>)
            : sh \in {"nested", "seq", "call", "infunc"}, k1 \in {"str", "sl"}, k2 \in {"str", "sl"}, l1 \in RLens \ {0}, l2 \in RLens,
              rv1 \in (IF Quick THEN {"both"} ELSE RVars), rv2 \in (IF Quick THEN {"both", "idx"} ELSE RVars)}
-All == Range2 \cup SubCases \cup IdxCases \cup StrOps \cup GrowCases \cup Hist2 \cup Hist3 \cup CopyCases \cup MiscCases
+\* element values that are more than a word (C08's alphabet, as far as it is free of recorded findings) through every slice operation
+PunctVals == <<"it's", "a b", " lead", "trail ", "*", "x;y", "a  b", "(p)", "#h", "-n", "k=v", "'", "a&b", "~", "?">>
+PunctCases == {CaseOf("C03/punct/" \o ToString(i), <<Def1("v", StrL(PunctVals[i])), Def1("s", SliceLit("string", <<StrL("first")>>)), SetIdx("s", N(0), Var("v")), SetIdx("s", N(3), StrL(PunctVals[i])),
+                                                   Def1("d", SliceLit("string", <<>>)), Def1("n", CopyE("d", Var("s"))), Def1("t", Var("s")), SetIdx("t", N(4), Bin("+", Var("v"), Var("v"))),
+                                                   PrintS(<<Var("n"), LenE(Var("s")), LenE(Var("d"))>>), RangeS("k", "e", Var("s"), <<PrintS(<<Var("k"), StrL("["), Var("e"), StrL("]"), LenE(Var("e"))>>)>>),
+                                                   PrintS(<<StrL("["), IndexE(Var("d"), N(0)), StrL("]"), CmpE("==", IndexE(Var("d"), N(3)), Var("v")), CmpE("==", IndexE(Var("s"), N(1)), StrL(""))>>)>>)
+               : i \in 1..Len(PunctVals)}
+All == PunctCases \cup Range2 \cup SubCases \cup IdxCases \cup StrOps \cup GrowCases \cup Hist2 \cup Hist3 \cup CopyCases \cup MiscCases
 ASSUME ndJsonSerialize("fam.ndjson", SetToSeq(All))
 =============================================================================
